@@ -180,11 +180,14 @@ where
 {
     let d = c.depth;
     ensure!(d >= 1, "bad case: depth 0");
-    let g = if F::INT { 1.0 } else { c.gain };
+    // gains above 1e30 are for f64-based formats only (an f32 would be infinite: not finite input) and only where nothing is
+    // added up: the transparent mode
+    let g = if F::INT { 1.0 } else if c.gain > 1e30 && (F::EPS > 1e-10 || c.mode != Mode::Transparent) { 1.0 } else { c.gain };
     ensure!(g.is_finite() && g > 0.0, "bad case: gain");
     let c = &Case { a: c.a.iter().map(|v| v * g).collect(), b: c.b.iter().map(|v| v * g).collect(), ..c.clone() };
     st.class_if(!F::INT && g > 1.0, "float input above 1.0");
     st.class_if(!F::INT && g < 1e-20, "float input below 1e-20");
+    st.class_if(!F::INT && g > 1e300, "f64 input next to f64::MAX (ratio 1)");
     let full = c.full_scale && c.mode == Mode::Transparent;
     let a: Vec<F> = c.a.iter().enumerate().map(|(i, v)| if full { F::mk_full(*v, i as u64) } else { F::mk(*v, i as u64) }).collect();
     st.class_if(full && F::INT, "integer history at full scale (ratio 1)");
@@ -353,7 +356,7 @@ pub fn case_strategy(max_depth: usize) -> impl Strategy<Value = Case> {
             proptest::collection::vec(x_strategy(), 1..5),
             prop_oneof![1 => Just(1.0), 3 => (0.1f64..4.0)],
             any::<bool>(),
-            prop_oneof![3 => Just(1.0), 2 => proptest::sample::select(vec![4.0, 3.0, 1000.0, 1e-3, 65536.0, 1e6, 1e-21, 1e-24, 1e-30, 1e-12]), 1 => (0.5f64..50.0)],
+            prop_oneof![3 => Just(1.0), 2 => proptest::sample::select(vec![4.0, 3.0, 1000.0, 1e-3, 65536.0, 1e6, 1e-21, 1e-24, 1e-30, 1e-12, 1.7e308]), 1 => (0.5f64..50.0)],
             prop_oneof![
                 2 => Just(None),
                 1 => proptest::sample::select(vec![44100.0, 48000.0, 44000.0, 22000.0, 11000.0, 88000.0, 49.0, 98.0, 103.0, 0.1, 1e-3]).prop_map(Some),
@@ -391,7 +394,7 @@ pub fn run(ctx: &mut Ctx) {
          non-trivial: depth <= 2, history shorter than depth, x != 0, or reset",
     );
     ctx.assume("transparent: |out_n - source[n-depth]| <= 1e-12 peak (for integer formats that is less than one LSB, i.e. exact); linearity within (12 depth + 12) eps sum|inputs| for floats, (6 depth + 3) LSB plus input truncation for integer formats; constant input within 1 % (+ (2 depth + 1) LSB of per-term truncation for integer formats); reset compared bit for bit with a fresh interpolator");
-    for c in ["depth <= 2", "history shorter than depth (priming)", "ratio exactly 1", "linearity", "constant input, primed, depth >= 4", "reset", "converter at a random ratio", "integer format", "float input above 1.0", "float input below 1e-20", "ratio 1 as two equal rates", "integer history at full scale (ratio 1)"] {
+    for c in ["depth <= 2", "history shorter than depth (priming)", "ratio exactly 1", "linearity", "constant input, primed, depth >= 4", "reset", "converter at a random ratio", "integer format", "float input above 1.0", "float input below 1e-20", "ratio 1 as two equal rates", "integer history at full scale (ratio 1)", "f64 input next to f64::MAX (ratio 1)"] {
         ctx.require_class(c);
     }
     let max_depth = ctx.pick(16usize, 64);
